@@ -335,14 +335,12 @@ func addLeafListChanges(patchRoot, old, new *etree.Element, elemPath string) err
 }
 
 // calcAddr returns an address for an element in the MPD.
-// Uses id, or schemeIdUri if present, and no index for SegmentTimeline and SegmentTemplate.
-// Otherwise use numerical index converted to one-based.
+// Uses id if present, and no index for SegmentTimeline and SegmentTemplate.
+// Otherwise use the numerical index among the siblings with the same tag, converted to one-based.
+// (schemeIdUri is not a key: siblings may share it, and the patch itself may change it.)
 func calcAddr(elem *etree.Element, elemIdx int) string {
 	if id := getAttrValue(elem, "id"); id != "" {
 		return fmt.Sprintf("%s[@id='%s']", elem.Tag, id)
-	}
-	if schemeIdUri := getAttrValue(elem, "schemeIdUri"); schemeIdUri != "" {
-		return fmt.Sprintf("%s[@schemeIdUri='%s']", elem.Tag, schemeIdUri)
 	}
 	switch elem.Tag {
 	case "SegmentTimeline", "SegmentTemplate":
